@@ -7,6 +7,7 @@ class Matter:
     number_density: Quantity = None # number density
     volume: Quantity = None         # volume
     mass: Quantity = None           # mass
+    density_given: str = None       # which of the two densities was set by the user
 
     def __init__(self, 
         number_density:Quantity=None, mass_density:Quantity=None, volume:Quantity=None
@@ -20,13 +21,15 @@ class Matter:
         self.number_density = number_density
         self.mass_density = mass_density
         self.volume = volume
+        # remember which density was given; the other one is derived (again) by every _norm()
+        self.density_given = 'mass' if mass_density else ('number' if number_density else None)
 
     def _norm(self):
       # setup densities of the composite
-        if self.mass_density:
+        if self.density_given=='mass':
             self.mass_density.to(Units.MASS_DENSITY)
             self.number_density = (self.mass_density/self.composite_mass).to(Units.NUMBER_DENSITY)
-        elif self.number_density: # !! number density of a composite, not sum of all its components
+        elif self.density_given=='number': # !! number density of a composite, not sum of all its components
             self.mass_density = (self.number_density*self.composite_mass).to(Units.MASS_DENSITY)
             self.number_density.to(Units.NUMBER_DENSITY)
         if self.volume:
